@@ -31,7 +31,7 @@ VARIABLES def, place, steps, hist
 vars == <<def, place, steps, hist>>
 
 (* place: how/where the definition is written - never part of Canon *)
-Place0 == [file |-> "root", comments |-> 0, blanks |-> 0, unrelated |-> 0, hexid |-> FALSE, imporder |-> 0, proc |-> 0, structbody |-> 0, keyorder |-> 0]
+Place0 == [file |-> "root", comments |-> 0, blanks |-> 0, unrelated |-> 0, hexid |-> FALSE, imporder |-> 0, proc |-> 0, structbody |-> 0, keyorder |-> 0, noalign |-> 0]
 Canon(d) == <<d.name, d.id, d.fields>>
 
 FieldNames(d) == {d.fields[i][1] : i \in DOMAIN d.fields}
@@ -65,15 +65,17 @@ HexId        == Noise("HexId", [place EXCEPT !.hexid = ~@])
 ReorderImp   == Noise("ReorderImports", [place EXCEPT !.imporder = 1 - @])
 Recompile    == Noise("RecompileOtherProcess", [place EXCEPT !.proc = @ + 1])
 EditStruct   == Noise("EditUsedStruct", [place EXCEPT !.structbody = 1 - @])
+NoAlign      == Noise("AddNoAlignOption", [place EXCEPT !.noalign = 1 - @])    \* compiled with alignment validation / auto padding off
 KeyOrder     == Noise("AddKeyOrder", [place EXCEPT !.keyorder = 1 - @])      \* `fields:` written before `id:` inside the definition
 
 EditStep == Rename \/ ChangeId \/ RenameField \/ RetypeField \/ InsertField \/ DeleteField \/ SwapFields
-NoiseStep == AddComment \/ AddBlank \/ AddUnrelated \/ Move \/ HexId \/ ReorderImp \/ Recompile \/ EditStruct \/ KeyOrder
+NoiseStep == AddComment \/ AddBlank \/ AddUnrelated \/ Move \/ HexId \/ ReorderImp \/ Recompile \/ EditStruct \/ KeyOrder \/ NoAlign
 Next == EditStep \/ NoiseStep
 
 Init == /\ def \in {[name |-> "MSGA", id |-> 1010, fields |-> fs] :
                       fs \in {<<>>, <<Field("a", "int32")>>, <<Field("a", "int32"), Field("b", "char[8]")>>,
-                              <<Field("a", "int32"), Field("b", "OTHER_S")>>, <<Field("a", "OTHER_S[2]")>>}}
+                              <<Field("a", "int32"), Field("b", "OTHER_S")>>, <<Field("a", "OTHER_S[2]")>>,
+                              <<Field("a", "int32"), Field("b", "double[2]")>>}}        \* needs padding: the compiler inserts it (or not)
         /\ place = Place0 /\ steps = 0
         /\ hist = IF GenOn THEN <<[a |-> "Init", v |-> [def |-> def, place |-> Place0]]>> ELSE <<>>
 Spec == Init /\ [][Next]_vars
